@@ -194,6 +194,7 @@ class Renderer:
         "char16_long": ("char16", False, '"ab"'),
         "real_overflow": ("real32", False, "1.0e999"),
         "bool_for_int": ("uint8", False, "true"),
+        "huge_digits": ("uint64", False, "1" * 5000),
     }
     # property of class Types holding a value of that type
     TYPEPROP = {"uint8": "n", "uint64": "big", "uint16": "n", "datetime": "d",
@@ -409,7 +410,7 @@ class Renderer:
              "nomatch_colon": "1:", "empty": "", "space": "a b",
              "withhost": "//host/root", "withscheme": "http://host/root",
              "trailing_slash": "root/", "double_slash": "root//x",
-             "hexesc_end": "root/cim\\x41"}
+             "hexesc_end": "root/cimv\\x32"}
 
     def pragma(self, name, param, v):
         kw = self.kw
@@ -586,6 +587,12 @@ class Renderer:
             chunks.append(self.rng.choice(["\n", "\n", "\n\n", " ", "\r\n"]))
         return "".join(chunks)
 
+    @staticmethod
+    def as_read(path):
+        """The text as compile_file sees it (text mode: universal newlines)."""
+        with open(path, encoding="utf-8") as f:
+            return f.read()
+
     def render(self):
         ses, out = self.ses, self.out
         os.makedirs(os.path.dirname(self.inc_path), exist_ok=True)
@@ -595,14 +602,14 @@ class Renderer:
             with open(self.inc_path, "w", encoding="utf-8", newline="") as f:
                 f.write(inc_text)
             out.files[2] = self.inc_path
-            out.texts.append({"fid": 2, "text": inc_text})
+            out.texts.append({"fid": 2, "text": self.as_read(self.inc_path)})
         out.text = self.render_file(ses["main"], 1, self.main_path)
         with open(self.main_path, "w", encoding="utf-8", newline="") as f:
             f.write(out.text)
         out.files[1] = self.main_path
         # the main text is file 1 for compile_file and for every include of
         # it; for string input it is (also) the anonymous text, fid 0
-        out.texts.append({"fid": 1, "text": out.text})
+        out.texts.append({"fid": 1, "text": self.as_read(self.main_path)})
         if self.api != "file":
             out.texts.append({"fid": 0, "text": out.text})
         for emb in self.embedded:
